@@ -525,6 +525,14 @@ func (f *Firewall) inConns(fp firewall.Packet, h *HostInfo, caPool *cert.CAPool,
 		return false
 	}
 
+	if !c.Expires.After(time.Now()) {
+		// Idle past its timeout. The timer wheel only evicts lazily (it advances on inserts and purges
+		// one item per lookup), so an expired entry can still be in the map: never honour it.
+		delete(conntrack.Conns, fp)
+		conntrack.Unlock()
+		return false
+	}
+
 	if c.rulesVersion != f.rulesVersion {
 		// This conntrack entry was for an older rule set, validate
 		// it still passes with the current rule set
